@@ -53,6 +53,8 @@ MEMBERS = [
      ("deep__scan{s}", [("level", "pos")])),
     ("    def start{s}_(self, count: int = 1) -> int:\n        '''Differs from an inherited name only by a trailing underscore.'''\n        return count\n",
      ("start{s}_", [("count", "opt")])),
+    ("    def shift_by{s}(self, amount: int, /, times: int = 1) -> int:\n        '''Positional-only parameter.'''\n        return amount * times\n",
+     ("shift_by{s}", [("amount", "pos"), ("times", "opt")])),
     ("    def ratio_of{s}(self, part: float, whole: float = 1.0) -> float:\n        '''Ratio.'''\n        return part / whole\n",
      ("ratio_of{s}", [("part", "pos"), ("whole", "opt")])),
 ]
@@ -128,7 +130,7 @@ class C16Engine(Engine):
             "subclass, or width < 40 or > 200. Distinct = case hash.")
     assumptions = ["the session is driven in-process through a real asyncio.StreamReader and a recording writer (vt/ctl/harness.py)",
                    "API table written from the documentation, independent of inspect.getmembers"]
-    bounds = {"widths": "1..1000", "generated members": "<=4 of 15 templates", "subclass depth": "<=2"}
+    bounds = {"widths": "1..1000", "generated members": "<=4 of 16 templates", "subclass depth": "<=2"}
 
     def strategies(self, tier: str):
         return [("default", st.binary(min_size=NB, max_size=NB).map(decode), 1200 if tier == "quick" else 30000)]
@@ -225,6 +227,21 @@ class C16Engine(Engine):
                                 fail("help/parameter-not-described", f"{cmd} {h}: {o}")
                     if name in docs and norm(docs[name]) not in text:
                         fail("help/member-docstring-line-missing", f"{cmd} {h}: {docs[name]!r}")
+            # generated members really are callable through their command
+            sfx = case.get("suffix", "")
+            calls = {"extra_count": ("extra-count{s} 4 --label z", "4z"), "toggle_thing": ("toggle-thing{s} --fast", "True"),
+                     "sum_all": ("sum-all{s} 1 2 3", "6"), "wait_a_bit": ("wait-a-bit{s} --rounds 3", "3"), "extra_info": ("extra-info{s}", "info"),
+                     "knob": ("knob{s} 5", "ok"), "scale": ("scale{s} 21 --offset 1", "43"), "filter": ("filter{s}- --pattern q", "q"),
+                     "deep__scan": ("deep--scan{s} 2", "2"), "shift_by": ("shift-by{s} 3 --times 2", "6"), "ratio_of": ("ratio-of{s} 1 --whole 4", "0.25")}
+            for name in sorted(table):
+                base = name[: len(name) - len(sfx)] if sfx and name.endswith(sfx) else name
+                key = base.rstrip("_") if base.rstrip("_") in calls else base
+                if key in calls and name not in TASKPOOL and name not in SIMPLE:
+                    line, want = calls[key]
+                    r = await s.command(line.format(s=sfx.replace("_", "-")))
+                    if len(r) != 1 or r[0].decode().strip() != want:
+                        fail("call/generated-member-command", f"{line.format(s=sfx)!r}: {r!r}, expected {want!r}")
+                    labels.append("invoked-generated-member")
             for p in private:
                 if p.replace("_", "-") in got or p in got:
                     fail("surface/non-public-member-exposed", p)
